@@ -1188,7 +1188,8 @@ def _dd_body(fn, host, key, extra=()):
     try:
         if kind == "ret":
             return ("dd", fn, host, key, run)
-        if kind == "selfsync" and run == 1:
+        nself = w.dd_runs[("selfsync", fn, host, key)] = w.dd_runs.get(("selfsync", fn, host, key), 0) + 1
+        if kind == "selfsync" and nself == 1:
             # synchronous re-entry with the same key while this body is running (escape hatch)
             inner = w.dd_call(fn if fn != "m" else "m" + (host or "x"), key, "o1" if fn == "k" else "pos").value()
         else:
